@@ -45,10 +45,12 @@ theorem extent (pos sp : Rat) (w : Rat) (ws : List Rat) :
     rw [this]; grind
 
 example (a b : Rat) (h : 0 ≤ a) (h2 : a ≤ b) : 0 ≤ (b - a) / 2 := by grind
-example (a b c : Rat) (hc : 0 < c) : max (c*a) (c*b) = c * max a b := by
-  rcases Rat.le_total a b with h | h
-  · have : c*a ≤ c*b := Rat.mul_le_mul_of_nonneg_left h (Rat.le_of_lt hc)
+/-- scaling commutes with `max` for a positive factor (used by the C17 homogeneity lemmas) -/
+theorem max_scale (a b c : Rat) (hc : 0 < c) : max (c*a) (c*b) = c * max a b := by
+  rcases Rat.le_total (a := a) (b := b) with h | h
+  · have h2 : c*a ≤ c*b := Rat.mul_le_mul_of_nonneg_left h (Rat.le_of_lt hc)
+    simp [Rat.max_def, h, h2]
+  · have h2 : c*b ≤ c*a := Rat.mul_le_mul_of_nonneg_left h (Rat.le_of_lt hc)
     grind
-  · have : c*b ≤ c*a := Rat.mul_le_mul_of_nonneg_left h (Rat.le_of_lt hc)
-    grind
+
 #print axioms extent
